@@ -183,6 +183,7 @@ def call(I, name, args, e):
                 # a Vec of sized, non-zero-sized elements holds at most isize::MAX bytes (its allocation is refused beyond that)
                 o_ = I.st.ranges.get(r_, (0, sym.BIG))
                 I.st.ranges[r_] = (max(o_[0], 0), min(o_[1], (1 << 63) - 1))
+                sym.refine(('le', r_, C((1 << 63) - 1)), I.st.ranges)      # and so is every part of a sum of lengths
             return r_
         if isinstance(a0, SliceV): return sub(a0.hi, a0.lo)
         return I.top('len of %r' % (a0,), e)
